@@ -8,6 +8,13 @@ SOURCES = {
     "cri": "int", "crs": "string", "crv": "vector", "cro": "obj", "cpo": "obj", "spo": "obj",
     "cdr": "der", "cdp": "der", "dsp": "der", "gcder": "der", "ret_cder()": "der",
     "ret_ci()": "int", "ret_cs()": "string", "ret_co()": "obj", "ret_cv()": "vector",
+    # literals of every spelling (each literal kind is built by its own branch of the parser: buildInt's suffix ladder and its out-of-range fallback, buildFloat, chars).
+    # intx / doublex: not exactly int / double — a C++ function taking int& / double& then receives a converted temporary, which is no violation, so the
+    # mut_* functions are not among their mutators
+    "0x8000000000000000": "intx", "0xFFFFFFFFFFFFFFFF": "intx", "9223372036854775808": "intx", "18446744073709551615": "intx", "01777777777777777777777": "intx",
+    "0b1000000000000000000000000000000000000000000000000000000000000000": "intx", "2147483648": "intx", "4294967296": "intx", "9223372036854775807": "intx",
+    "5u": "intx", "5l": "intx", "5ul": "intx", "5ll": "intx", "5ull": "intx", "5LL": "intx", "0x10": "int", "0b101": "int", "017": "int", "0xFFFFFFFF": "intx", "0x7FFFFFFF": "int",
+    "'c'": "intx", "2.5f": "doublex", "2.5l": "doublex", "1e3": "double", "1.5e-3": "double", ".5": "double", "1 < 2": "bool", "(5 / 2)": "int", "(2.0 * 3)": "double", "-5": "int", "(-(5))": "int",
     "5": "int", "(1 + 2)": "int", "2.5": "double", "true": "bool", "!false": "bool", "\"lit\"": "string", "[1, 2]": "tmpvector",
 }
 
@@ -30,6 +37,8 @@ MUTATORS["vector"] += ["`=`({a}, [9])"]
 MUTATORS["obj"] += ["`=`({a}, Obj(9))"]
 MUTATORS["der"] = ["{a}.pset(9)", "{a}.pv = 9", "{a}.pv += 1", "mut_pb({a})", "mut_pbp({a})", "mut_pd({a})", "{a} = PDer(9)", "{a} := PDer(9)", "++{a}.pv"]
 MUTATORS["tmpvector"] = MUTATORS["vector"]
+MUTATORS["intx"] = [m for m in MUTATORS["int"] if "mut_" not in m]
+MUTATORS["doublex"] = [m for m in MUTATORS["double"] if "mut_" not in m]
 
 # routes: how the attacker gets hold of the source.  alias=True means the handle must still be the const object itself.
 ROUTES = [
